@@ -1,3 +1,103 @@
 import Driver.Common
-/-! Model driver for C10 — not built yet. -/
-def main (_args : List String) : IO Unit := pure ()
+import Logrange.Model.PipeLts
+import Logrange.Generated.C10
+/-! Model driver for C10 (pipe LTS). Requests (byte strings hex, `-` = empty; an event is `<ts>:<msg>:<fields>`):
+
+* `reset <n> <others 0|1> <flt>`   — `flt` = `true` | `contains:<hex>` | `ncontains:<hex>` | `tsgt:<int>` | `tslt:<int>`
+* `src <s> <listens 0|1> <prov>`   — tags of source `s` satisfy the source condition; its provenance fields
+* `write <s> <ev>*`, `enqueue <i>`, `notify`, `wopen <s>`, `wcopy <s> <k>`, `wsave <s>`, `wtimeout <s>`, `wdone <s>`,
+  `create`, `delete`, `shutdown`, `halt`, `restart`  → `ok` | `disabled`
+* `cycle <s>`                      — `enqueue 0; notify; wopen; wcopy all; wsave; wtimeout; wdone` as far as enabled → `ok`
+* `desc <s>`                       → `none` | `<pos> <lastKnown> <charged> <start> <stale> <wk>`
+* `proj <s>` / `spec <s>`          → MODEL / SPEC content of the pipe partition copied from `s` (events)
+* `dest`                           → `<s>=<ev>` list in stored order
+* `quiescent`                      → `0|1`
+* `cfg`                            → the configuration regenerated from the source
+-/
+open Go Logrange.PipeLts Driver
+
+def cfgNow : Cfg :=
+  { chanCap := Logrange.Generated.C10.weChanCap
+    dropOnCreate := Logrange.Generated.C10.createDropsCache
+    dropOnDelete := Logrange.Generated.C10.deleteDropsCache
+    applyFilter := decide (0 < Logrange.Generated.C10.fltFUseSites)
+    rearm := Logrange.Generated.C10.workerDoneRearms }
+
+def isInfix (needle : Bytes) : Bytes → Bool
+  | [] => needle.isEmpty
+  | x :: xs => needle.isPrefixOf (x :: xs) || isInfix needle xs
+
+def parseFlt (s : String) : Ev → Bool :=
+  match s.splitOn ":" with
+  | ["contains", h] => fun e => isInfix (unhex h) e.msg
+  | ["ncontains", h] => fun e => !isInfix (unhex h) e.msg
+  | ["tsgt", v] => fun e => decide (e.ts > v.toInt?.getD 0)
+  | ["tslt", v] => fun e => decide (e.ts < v.toInt?.getD 0)
+  | _ => fun _ => true
+
+def parseEv (s : String) : Ev :=
+  match s.splitOn ":" with
+  | [t, m, f] => ⟨t.toInt?.getD 0, unhex m, unhex f⟩
+  | _ => default
+
+def showEv (e : Ev) : String := s!"{e.ts}:{hex e.msg}:{hex e.fields}"
+def showEvs (l : List Ev) : String := if l.isEmpty then "-" else " ".intercalate (l.map showEv)
+
+def showWk : Wk → String
+  | .none => "none"
+  | .starting => "starting"
+  | .opened c => s!"opened:{c}"
+  | .written c => s!"written:{c}"
+  | .finishing => "finishing"
+
+def b01 (b : Bool) : String := if b then "1" else "0"
+
+def doStep (st : State) (l : Label) : State × String :=
+  match step cfgNow st l with
+  | some st' => (st', "ok")
+  | none => (st, "disabled")
+
+def tryStep (st : State) (l : Label) : State := (step cfgNow st l).getD st
+
+def nat (s : String) : Nat := s.toNat?.getD 0
+
+def handle (st : State) (toks : List String) : State × String :=
+  match toks with
+  | ["reset", n, o, f] => (init (nat n) (fun _ => false) (fun _ => []) (parseFlt f) (o == "1"), "ok")
+  | ["src", s, l, p] =>
+    let σ := st.srcs (nat s)
+    ({ st with srcs := upd st.srcs (nat s) { σ with listens := l == "1", prov := unhex p } }, "ok")
+  | "write" :: s :: evs => doStep st (.write (nat s) (evs.map parseEv))
+  | ["enqueue", i] => doStep st (.enqueue (nat i))
+  | ["notify"] => doStep st .notify
+  | ["wopen", s] => doStep st (.wopen (nat s))
+  | ["wcopy", s, k] => doStep st (.wcopy (nat s) (nat k))
+  | ["wsave", s] => doStep st (.wsave (nat s))
+  | ["wtimeout", s] => doStep st (.wtimeout (nat s))
+  | ["wdone", s] => doStep st (.wdone (nat s))
+  | ["create"] => doStep st .create
+  | ["delete"] => doStep st .delete
+  | ["shutdown"] => doStep st .shutdown
+  | ["halt"] => doStep st .halt
+  | ["restart"] => doStep st .restart
+  | ["cycle", s] =>
+    let s := nat s
+    let big := 1000000000
+    let st := [Label.enqueue 0, .notify, .wopen s, .wcopy s big, .wsave s, .wtimeout s, .wdone s,
+               -- a re-armed worker (data notified while the first one was finishing)
+               .wopen s, .wcopy s big, .wsave s, .wtimeout s, .wdone s].foldl tryStep st
+    (st, "ok")
+  | ["desc", s] =>
+    let σ := st.srcs (nat s)
+    match σ.desc with
+    | none => (st, "none")
+    | some d => (st, s!"{d.pos} {d.lastKnown} {b01 d.charged} {d.start} {b01 d.stale} {showWk σ.wk}")
+  | ["proj", s] => (st, showEvs (proj (nat s) st.dest))
+  | ["spec", s] => (st, showEvs (specProj st (nat s)))
+  | ["dest"] => (st, if st.dest.isEmpty then "-" else " ".intercalate (st.dest.map (fun x => s!"{x.1}={showEv x.2}")))
+  | ["quiescent"] => (st, b01 (quiescent st))
+  | ["cfg"] => (st, s!"chanCap={cfgNow.chanCap} dropOnCreate={b01 cfgNow.dropOnCreate} dropOnDelete={b01 cfgNow.dropOnDelete} applyFilter={b01 cfgNow.applyFilter} rearm={b01 cfgNow.rearm}")
+  | _ => (st, "bad-op")
+
+def main (args : List String) : IO Unit :=
+  Driver.run handle (init 0 (fun _ => false) (fun _ => []) (fun _ => true) false) args
